@@ -670,6 +670,10 @@ func loopInvariant(v ssa.Value, body map[*ssa.BasicBlock]bool, depth int) bool {
 func runC10(c *Check, w *World) {
 	tb := NewTB(w)
 	ef := NewEffects(tb)
+	if w.Cfg.Name == CfgNative.Name {
+		// the service layer's use of the excluded Must* helper: the name it instantiates is the name it tested
+		ruleRawSuiteConsistency(c, w, tb, "R10.REST")
+	}
 	iv := newIVWithTables(w, tb, ef)
 	x := &c10ctx{c: c, w: w, tb: tb, iv: iv, ef: ef, scope: map[*ssa.Function]bool{}}
 	api := w.ExportedAPI()
@@ -1122,7 +1126,7 @@ func init() {
 			"Not decided: out-of-memory, stack exhaustion, panics inside the standard library on inputs meeting its documented preconditions.",
 		trusted:  []string{"the Go compiler's bounds-check elimination (prove pass)", "documented preconditions of the standard library functions used"},
 		assume:   []string{"nil Suite values and user-defined Suite implementations are excluded by the property", "LeftPadHex width is within 0..2^20 (property)", "TimeCounterFunc is not replaced and not called directly with period 0"},
-		quick:    []Config{CfgNative},
+		quick:    []Config{CfgNative, CfgWasm},
 		thorough: []Config{CfgNative, Cfg386, CfgWasm},
 		run:      runC10,
 	})
